@@ -234,5 +234,60 @@ def unit_reti(unit):
     return _report(run, unit, t0, status, err, {"paths": len(run.results)})
 
 
+def unit_off(unit):
+    """'A powered-off CPU additionally stops both timers': the real OFF (or, for contrast, HALT)
+    instruction is executed by one real step(), the timer targets are then made arbitrary, and one
+    more real step() runs at an arbitrary later cycle.  After OFF neither timer may fire or move its
+    target and no status bit may appear; after HALT the timers keep running (C13 decides how)."""
+    PE, RN = _setup()
+    t0 = time.time()
+    op = unit["op"]
+    run = core.Run(max_paths=3000, wall_s=500)
+
+    def body(eng):
+        emu = PE.PCE500Emulator(save_lcd_on_exit=False)
+        rom = bytearray(0x40000)
+        rom[0x3FFFA:0x3FFFD] = bytes([VECTOR & 0xFF, (VECTOR >> 8) & 0xFF, (VECTOR >> 16) & 0xFF])
+        emu.load_rom(bytes(rom))
+        emu.memory.write_byte(0xB8000, {"OFF": 0xDF, "HALT": 0xDE}[op])
+        emu.cpu.regs.set(RN.PC, 0xB8000)
+        emu.cpu.regs.set(RN.S, 0xBF000)
+        emu._timer_enabled = True
+        emu._scheduler.enabled = True
+        emu.step()
+        eng.prove("off:instruction-stops-the-cpu", z3.BoolVal(bool(emu.cpu.state.halted)))
+        isr_addr = 0x100000 + ISR_OFF
+        emu.memory.write_byte(isr_addr, 0)
+        emu._irq_pending = False
+        # bounded ranges (the scheduler's catch-up loops would otherwise iterate symbolically; C13 proves them
+        # for all values): concrete periods and cycle, both targets arbitrary within a window around it
+        mp, sp, cyc = 5, 7, 100
+        nm, ns = eng.fresh("next_mti", 8), eng.fresh("next_sti", 8)
+        eng.assume(z3.And(T(nm) >= 98, T(nm) <= 104, T(ns) >= 98, T(ns) <= 104))
+        sch = emu._scheduler
+        sch.mti_period, sch.sti_period = mp, sp
+        sch._next_mti, sch._next_sti = nm, ns
+        emu.cycle_count = cyc
+        emu.step()
+        isr = emu.memory.read_byte(isr_addr)
+        if op == "OFF":
+            eng.prove("off:no-status-bit-from-timers", T(isr) & 3 == 0, "a powered-off CPU stops both timers: no MTI/STI status bit appears")
+            eng.prove("off:timer-targets-frozen", z3.And(T(sch.next_mti) == T(nm), T(sch.next_sti) == T(ns)), "neither timer advances while the CPU is off")
+            eng.prove("off:stays-off", z3.BoolVal(bool(emu.cpu.state.halted)), "no timer can wake a powered-off CPU")
+        else:
+            eng.prove("halt:timers-keep-running", z3.Implies(z3.Or(T(nm) <= 100, T(ns) <= 100), T(isr) & 3 != 0),
+                      "contrast case: a halted (not powered-off) CPU is woken by its timers")
+        return op
+
+    status, err = "ok", None
+    try:
+        core.explore(body, run=run)
+    except core.Undecided as e:
+        status, err = "undecided", str(e)
+    except core.EngineError as e:
+        status, err = "engine-error", str(e)
+    return _report(run, unit, t0, status, err, {"paths": len(run.results)})
+
+
 def unit_any(unit):
     return globals()[unit["fn"]](unit)
